@@ -9,7 +9,8 @@ Record bstr_laws {B : Type} (A : bstr B) : Prop := {
   law_app_assoc : forall a b d, bs_app A (bs_app A a b) d = bs_app A a (bs_app A b d);
   law_app_empty_l : forall a, bs_app A (bs_empty A) a = a;
   law_app_empty_r : forall a, bs_app A a (bs_empty A) = a;
-  law_len_zero : forall a, bs_len A a = 0 -> a = bs_empty A
+  law_len_zero : forall a, bs_len A a = 0 -> a = bs_empty A;
+  law_len_take : forall n a, bs_len A (bs_take A n a) = N.min n (bs_len A a)
 }.
 
 Lemma bs_list_laws (T : Type) : bstr_laws (bs_list T).
@@ -21,6 +22,7 @@ Proof.
   - reflexivity.
   - apply app_nil_r.
   - destruct a; [reflexivity | cbn in H; lia].
+  - rewrite firstn_length. lia.
 Qed.
 
 Lemma bs_size_laws : bstr_laws bs_size.
@@ -52,7 +54,7 @@ Local Notation drain := (drain B).
 Local Notation spawn := (spawn B).
 Local Notation shutdown_loop := (shutdown_loop B A).
 
-Ltac unf := unfold set_ph, set_poisoned, set_shut, set_buf, set_resets, set_tasks, set_store, Model_ObjectWriter.spawn, close in *; cbn [ph poisoned shut buf cap cursor resets running ready calls failed n_create put_data n_complete n_abort obj] in *.
+Ltac unf := unfold Model_ObjectWriter.spawn, close in *; unfold set_ph, set_poisoned, set_shut, set_buf, set_resets, set_tasks, set_store in *; cbn [ph poisoned shut buf cap cursor resets running ready calls failed n_create put_data n_complete n_abort obj] in *.
 
 (* ------------------------------------------------------------------------------------------ *)
 (* 1. What the writer's own code never touches                                                *)
@@ -121,23 +123,25 @@ Qed.
 (* 2. Polls never change what is visible                                                      *)
 (* ------------------------------------------------------------------------------------------ *)
 
-Definition sframe (s s' : state) : Prop := obj s' = obj s /\ failed s' = failed s.
+Definition sframe (s s' : state) : Prop := obj s' = obj s /\ failed s' = failed s /\ shut s' = shut s.
 
 Lemma wframe_sframe s s' : wframe s s' -> sframe s s'.
-Proof. intros (?&?&?&?); split; assumption. Qed.
+Proof. intros (?&?&?&?); repeat split; assumption. Qed.
 Lemma sframe_trans s1 s2 s3 : sframe s1 s2 -> sframe s2 s3 -> sframe s1 s3.
-Proof. unfold sframe; intros (?&?) (?&?); split; congruence. Qed.
+Proof. unfold sframe; intros (?&?&?) (?&?&?); repeat split; congruence. Qed.
+Lemma sframe_refl s : sframe s s.
+Proof. repeat split. Qed.
 
 Lemma poll_write_sframe s d : sframe s (fst (poll_write B A c s d)).
 Proof.
   unfold poll_write. pose proof (poll_tasks_frame tasks_fuel s) as H1.
   destruct (poll_tasks tasks_fuel c s) as [s1|s1|]; cbn [fst].
-  2:{ apply wframe_sframe in H1. destruct H1; split; unf; assumption. }
-  2:{ split; reflexivity. }
+  2:{ apply wframe_sframe in H1. exact H1. }
+  2:{ apply sframe_refl. }
   apply wframe_sframe in H1.
   set (k := N.min (cap s1 - bs_len A (buf s1)) (bs_len A d)).
   set (s2 := set_buf B s1 (bs_app A (buf s1) (bs_take A k d)) (cap s1) (cursor s1 + k)).
-  assert (H2 : sframe s s2) by (destruct H1; split; subst s2; unf; assumption).
+  assert (H2 : sframe s s2) by exact H1.
   match goal with |- context [match ?r with Ok s3 => _ | _ => _ end] => set (r3 := r) end.
   assert (H3 : match r3 with Ok s3 => sframe s s3 | _ => True end).
   { subst r3. destruct (cap s2 =? bs_len A (buf s2)); [|exact H2].
@@ -148,7 +152,7 @@ Proof.
   pose proof (poll_tasks_frame tasks_fuel s3) as H4.
   destruct (poll_tasks tasks_fuel c s3) as [s4|s4|]; cbn [fst]; try exact H3.
   - eapply sframe_trans; [exact H3| apply wframe_sframe; exact H4].
-  - apply wframe_sframe in H4. destruct H3, H4; split; unf; congruence.
+  - apply wframe_sframe in H4. eapply sframe_trans; [exact H3|exact H4].
 Qed.
 
 Lemma poll_flush_sframe s : sframe s (fst (poll_flush B A c s)).
@@ -156,29 +160,31 @@ Proof.
   unfold poll_flush. pose proof (poll_tasks_frame tasks_fuel s) as H1.
   destruct (poll_tasks tasks_fuel c s) as [s1|s1|]; cbn [fst].
   - apply wframe_sframe in H1. destruct (ph s1); try destruct (nfut B s1 =? 0); exact H1.
-  - apply wframe_sframe in H1. destruct H1; split; unf; assumption.
-  - split; reflexivity.
+  - apply wframe_sframe in H1. exact H1.
+  - apply sframe_refl.
 Qed.
 
 Lemma shutdown_loop_sframe fuel : forall s, sframe s (fst (shutdown_loop fuel c s)).
 Proof.
-  induction fuel as [|f IH]; intro s; cbn [Model_ObjectWriter.shutdown_loop fst]; [split; reflexivity|].
+  induction fuel as [|f IH]; intro s; cbn [Model_ObjectWriter.shutdown_loop fst]; [apply sframe_refl|].
   pose proof (poll_tasks_frame tasks_fuel s) as H1.
   destruct (poll_tasks tasks_fuel c s) as [s1|s1|]; cbn [fst].
-  2:{ apply wframe_sframe in H1. destruct H1; split; unf; assumption. }
-  2:{ split; reflexivity. }
+  2:{ apply wframe_sframe in H1. exact H1. }
+  2:{ apply sframe_refl. }
   apply wframe_sframe in H1.
   destruct (ph s1) as [|g|p|dd g|g| |]; cbn [fst]; try exact H1.
-  - eapply sframe_trans; [|apply IH]. destruct H1; split; unf; assumption.
+  - eapply sframe_trans; [|apply IH]. exact H1.
   - destruct (negb (bs_len A (buf s1) =? 0) && (nfut B s1 <? c_maxpar c)).
-    + eapply sframe_trans; [|apply IH]. destruct H1; split; unf; assumption.
+    + eapply sframe_trans; [|apply IH]. exact H1.
     + destruct (nfut B s1 =? 0); cbn [fst]; [|exact H1].
-      eapply sframe_trans; [|apply IH]. destruct H1; split; unf; assumption.
+      eapply sframe_trans; [|apply IH]. exact H1.
 Qed.
 
-Lemma poll_shutdown_sframe s : sframe s (fst (poll_shutdown B A c s)).
+Lemma poll_shutdown_sframe s :
+  obj (fst (poll_shutdown B A c s)) = obj s /\ failed (fst (poll_shutdown B A c s)) = failed s.
 Proof.
-  unfold poll_shutdown. eapply sframe_trans; [|apply shutdown_loop_sframe]. split; reflexivity.
+  unfold poll_shutdown. pose proof (shutdown_loop_sframe shutdown_fuel (set_shut B s)) as (H1&H2&_).
+  split; [exact H1|exact H2].
 Qed.
 
 (* only a successful put / complete event changes the visible object *)
@@ -197,8 +203,719 @@ Proof.
     inversion H; reflexivity.
   - destruct ok; [discriminate|]. destruct (ph s) as [|g|p|dd g|g| |]; try discriminate. destruct g; try discriminate.
     inversion H; reflexivity.
-  - destruct (ph s); inversion H; unf; reflexivity.
-  - destruct (ph s); inversion H; unf; reflexivity.
+  - destruct (ph s) eqn:Hp; try discriminate; inversion H; subst; unfold close; rewrite Hp; reflexivity.
+  - destruct (ph s) eqn:Hp; try discriminate; inversion H; subst; unfold close; rewrite Hp; reflexivity.
 Qed.
+
+(* ------------------------------------------------------------------------------------------ *)
+(* 3. Structural invariant of every reachable state (any faults)                              *)
+(* ------------------------------------------------------------------------------------------ *)
+
+Definition committed_phase (p : phase B) : Prop :=
+  match p with PuttingSingle _ GOk | Completing GOk | Done | Closed => True | _ => False end.
+Definition shut_phase (p : phase B) : Prop :=
+  match p with PuttingSingle _ _ | Completing _ | Done => True | _ => False end.
+Definition in_progress (p : phase B) : Prop := match p with InProgress _ => True | _ => False end.
+
+Record R (s : state) : Prop := {
+  R_tasks : (running s = [] /\ ready s = []) \/ in_progress (ph s);     (* uploads exist only in InProgress *)
+  R_obj : obj s = None \/ committed_phase (ph s);                       (* visible only after the store committed *)
+  R_shut : shut_phase (ph s) -> shut s = true                           (* put / complete only after shutdown began *)
+}.
+
+Lemma R_init : R (init_state B A c).
+Proof. split; cbn; auto; intros []. Qed.
+
+Lemma R_ext s s' : ph s' = ph s -> running s' = running s -> ready s' = ready s -> obj s' = obj s ->
+  shut s' = shut s -> R s -> R s'.
+Proof. intros Hp Hr Hq Ho Hs [R1 R2 R3]. split; rewrite ?Hp, ?Hr, ?Hq, ?Ho, ?Hs; assumption. Qed.
+
+Lemma R_inprog s s' : in_progress (ph s) -> in_progress (ph s') -> obj s' = obj s -> R s -> R s'.
+Proof.
+  intros Hp Hp' Ho [R1 R2 R3]. split.
+  - right; assumption.
+  - rewrite Ho. destruct R2 as [|R2]; [left; assumption|]. destruct (ph s); cbn in *; contradiction.
+  - intro H. destruct (ph s'); cbn in *; contradiction.
+Qed.
+
+Lemma poll_tasks_R fuel : forall s, R s ->
+  match poll_tasks fuel c s with TOk _ s' | TErr _ s' => R s' | TFuel _ => True end.
+Proof.
+  induction fuel as [|f IH]; intros s HR; cbn [Model_ObjectWriter.poll_tasks]; [exact I|].
+  destruct (ph s) as [|g|p|d g|g| |] eqn:Hp; try exact HR.
+  - destruct g; try exact HR. apply IH. destruct HR as [R1 R2 R3]. rewrite Hp in *. split; unf.
+    + right; exact I.
+    + destruct R2 as [|[]]. left; assumption.
+    + intros [].
+  - destruct (drain c (ready s) s) as [s1 ok] eqn:Hd. apply drain_frame in Hd as [(Ho&_) Hph].
+    assert (R s1) by (eapply R_inprog; [| |exact Ho|exact HR]; rewrite ?Hph, Hp; exact I).
+    destruct ok; assumption.
+  - destruct g; try exact HR. apply IH. destruct HR as [R1 R2 R3]. rewrite Hp in *. split; unf.
+    + destruct R1 as [|[]]; left; assumption.
+    + right; exact I.
+    + intros _. apply R3; exact I.
+  - destruct g; try exact HR. apply IH. destruct HR as [R1 R2 R3]. rewrite Hp in *. split; unf.
+    + destruct R1 as [|[]]; left; assumption.
+    + right; exact I.
+    + intros _. apply R3; exact I.
+Qed.
+
+Lemma R_poisoned s : R s -> R (set_poisoned B s).
+Proof. apply R_ext; reflexivity. Qed.
+
+Lemma poll_write_R s d : R s -> R (fst (poll_write B A c s d)).
+Proof.
+  intro HR. unfold poll_write. pose proof (poll_tasks_R tasks_fuel s HR) as H1.
+  destruct (poll_tasks tasks_fuel c s) as [s1|s1|]; cbn [fst]; [|apply R_poisoned; exact H1|exact HR].
+  set (k := N.min (cap s1 - bs_len A (buf s1)) (bs_len A d)).
+  set (s2 := set_buf B s1 (bs_app A (buf s1) (bs_take A k d)) (cap s1) (cursor s1 + k)).
+  assert (H2 : R s2) by (revert H1; apply R_ext; reflexivity).
+  match goal with |- context [match ?r with Ok s3 => _ | _ => _ end] => set (r3 := r) end.
+  assert (H3 : match r3 with Ok s3 => R s3 | _ => True end).
+  { subst r3. destruct (cap s2 =? bs_len A (buf s2)); [|exact H2].
+    destruct (ph s2) as [|g|p|dd g|g| |] eqn:Hp; try exact H2.
+    - destruct H2 as [R1 R2 R3]. rewrite Hp in *. split; unf.
+      + destruct R1 as [|[]]; left; assumption.
+      + destruct R2 as [|[]]; left; assumption.
+      + intros [].
+    - destruct (nfut B s2 <? c_maxpar c); [|exact H2].
+      destruct (p + 1 <? 65536); [|exact I].
+      eapply R_inprog; [| | |exact H2]; rewrite ?Hp; unf; try exact I; reflexivity. }
+  destruct r3 as [s3| |]; cbn [fst]; try (apply R_poisoned; exact H2).
+  pose proof (poll_tasks_R tasks_fuel s3 H3) as H4.
+  destruct (poll_tasks tasks_fuel c s3) as [s4|s4|]; cbn [fst]; [exact H4|apply R_poisoned; exact H4|exact H3].
+Qed.
+
+Lemma poll_flush_R s : R s -> R (fst (poll_flush B A c s)).
+Proof.
+  intro HR. unfold poll_flush. pose proof (poll_tasks_R tasks_fuel s HR) as H1.
+  destruct (poll_tasks tasks_fuel c s) as [s1|s1|]; cbn [fst]; [|apply R_poisoned; exact H1|exact HR].
+  destruct (ph s1); try destruct (nfut B s1 =? 0); exact H1.
+Qed.
+
+Lemma nfut_zero s : nfut B s = 0 -> running s = [] /\ ready s = [].
+Proof.
+  unfold nfut. intro H. destruct (running s), (ready s); cbn in H; try lia. split; reflexivity.
+Qed.
+
+Lemma shutdown_loop_R fuel : forall s, shut s = true -> R s -> R (fst (shutdown_loop fuel c s)).
+Proof.
+  induction fuel as [|f IH]; intros s Hs HR; cbn [Model_ObjectWriter.shutdown_loop fst]; [exact HR|].
+  pose proof (poll_tasks_R tasks_fuel s HR) as H1. pose proof (poll_tasks_frame tasks_fuel s) as F1.
+  destruct (poll_tasks tasks_fuel c s) as [s1|s1|]; cbn [fst]; [|apply R_poisoned; exact H1|exact HR].
+  destruct F1 as (_&_&_&Hs1). rewrite Hs in Hs1.
+  destruct (ph s1) as [|g|p|dd g|g| |] eqn:Hp; cbn [fst]; try exact H1.
+  - apply IH; [unf; assumption|]. destruct H1 as [R1 R2 R3]. rewrite Hp in *. split; unf.
+    + destruct R1 as [|[]]; left; assumption.
+    + destruct R2 as [|[]]; left; assumption.
+    + intros _; assumption.
+  - destruct (negb (bs_len A (buf s1) =? 0) && (nfut B s1 <? c_maxpar c)).
+    + apply IH; [unf; assumption|].
+      apply (R_inprog s1); [rewrite Hp; exact I | unf; rewrite Hp; exact I | reflexivity | exact H1].
+    + destruct (nfut B s1 =? 0) eqn:Hn; cbn [fst]; [|exact H1].
+      apply IH; [unf; assumption|]. apply N.eqb_eq, nfut_zero in Hn.
+      destruct H1 as [R1 R2 R3]. rewrite Hp in *. split; unf.
+      * left; assumption.
+      * destruct R2 as [|[]]; left; assumption.
+      * intros _; assumption.
+Qed.
+
+Lemma poll_shutdown_R s : R s -> R (fst (poll_shutdown B A c s)).
+Proof.
+  intro HR. unfold poll_shutdown. apply shutdown_loop_R; [reflexivity|].
+  destruct HR as [R1 R2 R3]. split; unf; auto.
+Qed.
+
+Lemma take_task_in k l t rest : take_task B k l = Some (t, rest) -> In t l.
+Proof.
+  revert t rest; induction l as [|x l IH]; intros t rest H; cbn in H; [discriminate|].
+  destruct (Nat.eqb (t_call x) k).
+  - inversion H; subst; left; reflexivity.
+  - destruct (take_task B k l) as [[t' r']|]; [|discriminate]. inversion H; subst. right; eapply IH; reflexivity.
+Qed.
+
+Lemma step_R s e s' r : R s -> step s e = Some (s', r) -> R s'.
+Proof.
+  intros HR H. destruct e as [d| | |ok|k fr|ok|ok|ok|ok]; cbn [Model_ObjectWriter.step] in H.
+  - destruct (poisoned s || shut s); [discriminate|].
+    destruct (ph s); inversion H; pose proof (poll_write_R s d HR) as HH; rewrite H1 in HH; exact HH.
+  - destruct (poisoned s || shut s); [discriminate|].
+    destruct (ph s); inversion H; pose proof (poll_flush_R s HR) as HH; rewrite H1 in HH; exact HH.
+  - destruct (poisoned s); [discriminate|].
+    destruct (ph s); inversion H; pose proof (poll_shutdown_R s HR) as HH; rewrite H1 in HH; exact HH.
+  - destruct (ph s) as [|g|p|dd g|g| |] eqn:Hp; try discriminate. destruct g; try discriminate. inversion H; subst.
+    destruct HR as [R1 R2 R3]. rewrite Hp in *. split; unf.
+    + destruct R1 as [|[]]; left; assumption.
+    + destruct R2 as [|[]]; left; assumption.
+    + intros [].
+  - destruct (take_task B k (running s)) as [[t rest]|] eqn:Ht; [|discriminate]. inversion H; subst.
+    apply take_task_in in Ht. destruct HR as [R1 R2 R3]. split; unf.
+    + destruct R1 as [[R1 _]|R1]; [rewrite R1 in Ht; destruct Ht|right; assumption].
+    + assumption.
+    + assumption.
+  - destruct (ph s) as [|g|p|dd g|g| |] eqn:Hp; try discriminate. destruct g; try discriminate.
+    destruct HR as [R1 R2 R3]. rewrite Hp in *. destruct ok; inversion H; subst; split; unf.
+    + destruct R1 as [|[]]; left; assumption.
+    + right; exact I.
+    + intros _; apply R3; exact I.
+    + destruct R1 as [|[]]; left; assumption.
+    + destruct R2 as [|[]]; left; assumption.
+    + intros _; apply R3; exact I.
+  - destruct (ph s) as [|g|p|dd g|g| |] eqn:Hp; try discriminate. destruct g; try discriminate.
+    destruct HR as [R1 R2 R3]. rewrite Hp in *. destruct ok; inversion H; subst; split; unf.
+    + destruct R1 as [|[]]; left; assumption.
+    + right; exact I.
+    + intros _; apply R3; exact I.
+    + destruct R1 as [|[]]; left; assumption.
+    + destruct R2 as [|[]]; left; assumption.
+    + intros _; apply R3; exact I.
+  - destruct (ph s) eqn:Hp; try discriminate; inversion H; subst; unfold close; rewrite Hp;
+      split; unf; try (left; split; reflexivity); try (right; exact I); intros [].
+  - destruct (ph s) eqn:Hp; try discriminate; inversion H; subst; unfold close; rewrite Hp;
+      split; unf; try (left; split; reflexivity); try (right; exact I); intros [].
+Qed.
+
+(* ------------------------------------------------------------------------------------------ *)
+(* 4. Doomed states: after a fault, an error or abort/drop nothing can become visible any more *)
+(* ------------------------------------------------------------------------------------------ *)
+
+Definition has_failure (q : list (task B * fres)) : Prop := exists t, In (t, RErrOther) q.
+
+Definition doomed (s : state) : Prop :=
+  match ph s with
+  | Closed | Creating GErr | Completing GErr | PuttingSingle _ GErr => True
+  | InProgress _ => poisoned s = true \/ has_failure (ready s)
+  | _ => False
+  end.
+
+Lemma drain_failure q : forall s, has_failure q -> exists s1, drain c q s = (s1, false).
+Proof.
+  induction q as [|[t r] q IH]; intros s [t0 Hin]; [destruct Hin|].
+  cbn [Model_ObjectWriter.drain]. destruct r.
+  - destruct Hin as [E|Hin]; [inversion E|]. apply IH. exists t0; assumption.
+  - eexists; reflexivity.
+  - destruct (resets s <? c_maxretry c); [|eexists; reflexivity].
+    destruct Hin as [E|Hin]; [inversion E|]. apply IH. exists t0; assumption.
+Qed.
+
+(* every poll of a doomed (not yet poisoned, not closed) writer reports the error *)
+Lemma poll_tasks_doomed f s : doomed s -> poisoned s = false -> ph s <> Closed ->
+  exists s1, poll_tasks (S f) c s = TErr _ s1 /\ ph s1 = ph s.
+Proof.
+  unfold doomed. intros Hd Hp Hc. cbn [Model_ObjectWriter.poll_tasks].
+  destruct (ph s) as [|g|p|d g|g| |] eqn:Hph; try contradiction.
+  - destruct g; try contradiction. eexists; split; [reflexivity|assumption].
+  - destruct Hd as [Hd|Hd]; [congruence|].
+    destruct (drain_failure (ready s) s Hd) as [s1 Hs1]. rewrite Hs1.
+    apply drain_frame in Hs1 as [_ Hs1]. eexists; split; [reflexivity|congruence].
+  - destruct g; try contradiction. eexists; split; [reflexivity|assumption].
+  - destruct g; try contradiction. eexists; split; [reflexivity|assumption].
+Qed.
+
+Lemma doomed_poisoned s1 s : ph s1 = ph s -> doomed s -> doomed (set_poisoned B s1).
+Proof.
+  unfold doomed; unf. intros E H. rewrite E. destruct (ph s) as [|g|p|d g|g| |]; try exact H. left; reflexivity.
+Qed.
+
+Lemma doomed_step s e s' r : doomed s -> step s e = Some (s', r) -> doomed s' /\ obj s' = obj s.
+Proof.
+  intros Hd H.
+  assert (Hc : committed e = false).
+  { destruct e as [d| | |ok|k fr|ok|ok|ok|ok]; try reflexivity; destruct ok; try reflexivity;
+      cbn [Model_ObjectWriter.step] in H; unfold doomed in Hd;
+      destruct (ph s) as [|g|p|d g|g| |]; try discriminate; destruct g; try discriminate; contradiction. }
+  split; [|eapply step_obj; eassumption].
+  destruct e as [d| | |ok|k fr|ok|ok|ok|ok]; cbn [Model_ObjectWriter.step] in H.
+  - destruct (poisoned s) eqn:Hp; [discriminate|]. destruct (shut s); [discriminate|]. cbn [orb] in H.
+    assert (Hcl : ph s <> Closed) by (intro E; rewrite E in H; discriminate).
+    destruct (poll_tasks_doomed 2 s Hd Hp Hcl) as [s1 [H1 H2]].
+    unfold poll_write, tasks_fuel in H. rewrite H1 in H.
+    assert (E : Some (set_poisoned B s1, PError) = Some (s', r))
+      by (destruct (ph s); try exact H; exfalso; apply Hcl; reflexivity).
+    inversion E; subst; eapply doomed_poisoned; eassumption.
+  - destruct (poisoned s) eqn:Hp; [discriminate|]. destruct (shut s); [discriminate|]. cbn [orb] in H.
+    assert (Hcl : ph s <> Closed) by (intro E; rewrite E in H; discriminate).
+    destruct (poll_tasks_doomed 2 s Hd Hp Hcl) as [s1 [H1 H2]].
+    unfold poll_flush, tasks_fuel in H. rewrite H1 in H.
+    assert (E : Some (set_poisoned B s1, PError) = Some (s', r))
+      by (destruct (ph s); try exact H; exfalso; apply Hcl; reflexivity).
+    inversion E; subst; eapply doomed_poisoned; eassumption.
+  - destruct (poisoned s) eqn:Hp; [discriminate|].
+    assert (Hcl : ph s <> Closed) by (intro E; rewrite E in H; discriminate).
+    assert (Hd' : doomed (set_shut B s)) by exact Hd.
+    destruct (poll_tasks_doomed 2 (set_shut B s) Hd' Hp Hcl) as [s1 [H1 H2]].
+    unfold poll_shutdown, shutdown_fuel, tasks_fuel in H. cbn [Model_ObjectWriter.shutdown_loop] in H.
+    unfold tasks_fuel in H. rewrite H1 in H.
+    assert (E : Some (set_poisoned B s1, PError) = Some (s', r))
+      by (destruct (ph s); try exact H; exfalso; apply Hcl; reflexivity).
+    inversion E; subst; eapply doomed_poisoned; eassumption.
+  - unfold doomed in Hd. destruct (ph s) as [|g|p|d g|g| |]; try discriminate. destruct g; try discriminate; contradiction.
+  - destruct (take_task B k (running s)) as [[t rest]|]; [|discriminate]. inversion H; subst.
+    unfold doomed in *; unf. destruct (ph s) as [|g|p|d g|g| |]; try exact Hd.
+    destruct Hd as [Hd|[t0 Hd]]; [left; assumption|right; exists t0; apply in_or_app; left; assumption].
+  - unfold doomed in Hd. destruct (ph s) as [|g|p|d g|g| |]; try discriminate. destruct g; try discriminate; contradiction.
+  - unfold doomed in Hd. destruct (ph s) as [|g|p|d g|g| |]; try discriminate. destruct g; try discriminate; contradiction.
+  - destruct (ph s) eqn:Hp; try discriminate; inversion H; subst; unfold close, doomed; rewrite Hp; unf; exact I.
+  - destruct (ph s) eqn:Hp; try discriminate; inversion H; subst; unfold close, doomed; rewrite Hp; unf; exact I.
+Qed.
+
+(* a poll that returns Err leaves the writer poisoned in one of the four error phases, hence doomed *)
+Definition errored (s : state) : Prop := err_phase s /\ poisoned s = true.
+
+Lemma errored_intro s1 : err_phase s1 -> errored (set_poisoned B s1).
+Proof. intro H; split; [exact H|reflexivity]. Qed.
+
+Lemma errored_doomed s : errored s -> doomed s.
+Proof.
+  unfold doomed. intros [[E|[[p E]|[[d E]|E]]] Hp]; rewrite E; try exact I. left; assumption.
+Qed.
+
+Lemma poll_write_error s d s' : poll_write B A c s d = (s', PError) -> errored s'.
+Proof.
+  unfold poll_write. destruct (poll_tasks tasks_fuel c s) as [s1|s1|] eqn:H1; try discriminate.
+  2:{ intro H; inversion H; subst. apply errored_intro. eapply poll_tasks_err; eassumption. }
+  match goal with |- context [match ?r with Ok s3 => _ | _ => _ end] => destruct r as [s3| |] end; try discriminate.
+  destruct (poll_tasks tasks_fuel c s3) as [s4|s4|] eqn:H4; try discriminate.
+  - destruct (_ =? 0); discriminate.
+  - intro H; inversion H; subst. apply errored_intro. eapply poll_tasks_err; eassumption.
+Qed.
+
+Lemma poll_flush_error s s' : poll_flush B A c s = (s', PError) -> errored s'.
+Proof.
+  unfold poll_flush. destruct (poll_tasks tasks_fuel c s) as [s1|s1|] eqn:H1; try discriminate.
+  - destruct (ph s1); try destruct (nfut B s1 =? 0); discriminate.
+  - intro H; inversion H; subst. apply errored_intro. eapply poll_tasks_err; eassumption.
+Qed.
+
+Lemma shutdown_loop_error fuel : forall s s', shutdown_loop fuel c s = (s', PError) -> errored s'.
+Proof.
+  induction fuel as [|f IH]; intros s s'; cbn [Model_ObjectWriter.shutdown_loop]; [discriminate|].
+  destruct (poll_tasks tasks_fuel c s) as [s1|s1|] eqn:H1; try discriminate.
+  2:{ intro H; inversion H; subst. apply errored_intro. eapply poll_tasks_err; eassumption. }
+  destruct (ph s1) as [|g|p|dd g|g| |]; try discriminate; try apply IH.
+  destruct (negb (bs_len A (buf s1) =? 0) && (nfut B s1 <? c_maxpar c)); [apply IH|].
+  destruct (nfut B s1 =? 0); [apply IH|discriminate].
+Qed.
+
+Lemma step_error_errored s e s' : step s e = Some (s', PError) -> errored s'.
+Proof.
+  intro H. destruct e as [d| | |ok|k fr|ok|ok|ok|ok]; cbn [Model_ObjectWriter.step] in H.
+  - destruct (poisoned s || shut s); [discriminate|].
+    destruct (ph s); inversion H; eapply poll_write_error; eassumption.
+  - destruct (poisoned s || shut s); [discriminate|].
+    destruct (ph s); inversion H; eapply poll_flush_error; eassumption.
+  - destruct (poisoned s); [discriminate|].
+    destruct (ph s); inversion H; eapply shutdown_loop_error; eassumption.
+  - destruct (ph s) as [|g|p|d g|g| |]; try discriminate. destruct g; discriminate.
+  - destruct (take_task B k (running s)) as [[t rest]|]; discriminate.
+  - destruct (ph s) as [|g|p|d g|g| |]; try discriminate. destruct g; try discriminate. destruct ok; discriminate.
+  - destruct (ph s) as [|g|p|d g|g| |]; try discriminate. destruct g; try discriminate. destruct ok; discriminate.
+  - destruct (ph s); discriminate.
+  - destruct (ph s); discriminate.
+Qed.
+
+Lemma step_error_doomed s e s' : step s e = Some (s', PError) -> doomed s'.
+Proof. intro H. apply errored_doomed. eapply step_error_errored; eassumption. Qed.
+
+(* a fault event leaves the writer doomed *)
+Lemma step_fault_doomed s e s' r : R s -> step s e = Some (s', r) -> is_fault e = true -> doomed s'.
+Proof.
+  intros HR H Hf. destruct e as [d| | |ok|k fr|ok|ok|ok|ok]; try discriminate; cbn [Model_ObjectWriter.step] in H.
+  - destruct ok; [discriminate|]. destruct (ph s) as [|g|p|d g|g| |]; try discriminate. destruct g; try discriminate.
+    inversion H; subst. exact I.
+  - destruct fr; try discriminate.
+    destruct (take_task B k (running s)) as [[t rest]|] eqn:Ht; [|discriminate]. inversion H; subst.
+    apply take_task_in in Ht. destruct HR as [[[R1 _]|R1] _ _]; [rewrite R1 in Ht; destruct Ht|].
+    unfold doomed; unf. destruct (ph s); try contradiction.
+    right. exists t. apply in_or_app; right; left; reflexivity.
+  - destruct ok; [discriminate|]. destruct (ph s) as [|g|p|d g|g| |]; try discriminate. destruct g; try discriminate.
+    inversion H; subst. exact I.
+  - destruct ok; [discriminate|]. destruct (ph s) as [|g|p|d g|g| |]; try discriminate. destruct g; try discriminate.
+    inversion H; subst. exact I.
+  - destruct (ph s) eqn:Hp; try discriminate; inversion H; subst; unfold close, doomed; rewrite Hp; unf; exact I.
+  - destruct (ph s) eqn:Hp; try discriminate; inversion H; subst; unfold close, doomed; rewrite Hp; unf; exact I.
+Qed.
+
+(* ------------------------------------------------------------------------------------------ *)
+(* 5. Runs                                                                                    *)
+(* ------------------------------------------------------------------------------------------ *)
+
+Lemma run_app tr1 : forall s tr2 s' rs, run s (tr1 ++ tr2) = Some (s', rs) ->
+  exists s1 rs1 rs2, run s tr1 = Some (s1, rs1) /\ run s1 tr2 = Some (s', rs2) /\ rs = rs1 ++ rs2.
+Proof.
+  induction tr1 as [|e tr1 IH]; intros s tr2 s' rs H; cbn [app Model_ObjectWriter.run] in *.
+  - exists s, [], rs. repeat split. assumption.
+  - destruct (step s e) as [[s1 r]|]; [|discriminate].
+    destruct (Model_ObjectWriter.run B A c s1 (tr1 ++ tr2)) as [[s2 rs']|] eqn:Hr; [|discriminate].
+    inversion H; subst. apply IH in Hr as (sa & ra & rb & Ha & Hb & E). rewrite Ha.
+    exists sa, (r :: ra), rb. repeat split; [assumption|subst; reflexivity].
+Qed.
+
+Lemma run_R tr : forall s s' rs, R s -> run s tr = Some (s', rs) -> R s'.
+Proof.
+  induction tr as [|e tr IH]; intros s s' rs HR H; cbn [Model_ObjectWriter.run] in H.
+  - inversion H; subst; assumption.
+  - destruct (step s e) as [[s1 r]|] eqn:Hs; [|discriminate].
+    destruct (Model_ObjectWriter.run B A c s1 tr) as [[s2 rs']|] eqn:Hr; [|discriminate].
+    inversion H; subst. eapply IH; [|eassumption]. eapply step_R; eassumption.
+Qed.
+
+Lemma run_doomed tr : forall s s' rs, doomed s -> run s tr = Some (s', rs) -> doomed s' /\ obj s' = obj s.
+Proof.
+  induction tr as [|e tr IH]; intros s s' rs Hd H; cbn [Model_ObjectWriter.run] in H.
+  - inversion H; subst; split; [assumption|reflexivity].
+  - destruct (step s e) as [[s1 r]|] eqn:Hs; [|discriminate].
+    destruct (Model_ObjectWriter.run B A c s1 tr) as [[s2 rs']|] eqn:Hr; [|discriminate].
+    inversion H; subst. destruct (doomed_step _ _ _ _ Hd Hs) as [Hd1 Ho1].
+    destruct (IH _ _ _ Hd1 Hr) as [Hd2 Ho2]. split; [assumption|congruence].
+Qed.
+
+Lemma run_uncommitted tr : forall s s' rs, run s tr = Some (s', rs) -> existsb committed tr = false -> obj s' = obj s.
+Proof.
+  induction tr as [|e tr IH]; intros s s' rs H Hc; cbn [Model_ObjectWriter.run existsb] in *.
+  - inversion H; subst; reflexivity.
+  - apply orb_false_iff in Hc as [Hc1 Hc2].
+    destruct (step s e) as [[s1 r]|] eqn:Hs; [|discriminate].
+    destruct (Model_ObjectWriter.run B A c s1 tr) as [[s2 rs']|] eqn:Hr; [|discriminate].
+    inversion H; subst. rewrite (IH _ _ _ Hr Hc2). eapply step_obj; eassumption.
+Qed.
+
+(* put / complete cannot even be issued before poll_shutdown was called *)
+Lemma step_needs_shutdown s e s' r : R s -> shut s = false -> step s e = Some (s', r) ->
+  is_shutdown e = false -> shut s' = false /\ committed e = false.
+Proof.
+  intros HR Hs H He. destruct e as [d| | |ok|k fr|ok|ok|ok|ok]; try discriminate; cbn [Model_ObjectWriter.step] in H.
+  - destruct (poisoned s || shut s); [discriminate|]. split; [|reflexivity].
+    destruct (ph s); inversion H; pose proof (poll_write_sframe s d) as (_&_&E); rewrite H1 in E; cbn in E; congruence.
+  - destruct (poisoned s || shut s); [discriminate|]. split; [|reflexivity].
+    destruct (ph s); inversion H; pose proof (poll_flush_sframe s) as (_&_&E); rewrite H1 in E; cbn in E; congruence.
+  - destruct (ph s) as [|g|p|d g|g| |]; try discriminate. destruct g; try discriminate. inversion H; subst.
+    split; [assumption|reflexivity].
+  - destruct (take_task B k (running s)) as [[t rest]|]; [|discriminate]. inversion H; subst. split; [assumption|reflexivity].
+  - destruct HR as [_ _ R3]. destruct (ph s) as [|g|p|d g|g| |]; try discriminate.
+    rewrite R3 in Hs by exact I. discriminate.
+  - destruct HR as [_ _ R3]. destruct (ph s) as [|g|p|d g|g| |]; try discriminate.
+    rewrite R3 in Hs by exact I. discriminate.
+  - destruct (ph s) eqn:Hp; try discriminate; inversion H; subst; unfold close; rewrite Hp; unf; (split; [assumption|reflexivity]).
+  - destruct (ph s) eqn:Hp; try discriminate; inversion H; subst; unfold close; rewrite Hp; unf; (split; [assumption|reflexivity]).
+Qed.
+
+Lemma run_needs_shutdown tr : forall s s' rs, R s -> shut s = false -> run s tr = Some (s', rs) ->
+  existsb is_shutdown tr = false -> existsb committed tr = false.
+Proof.
+  induction tr as [|e tr IH]; intros s s' rs HR Hs H He; cbn [Model_ObjectWriter.run existsb] in *; [reflexivity|].
+  apply orb_false_iff in He as [He1 He2].
+  destruct (step s e) as [[s1 r]|] eqn:Hst; [|discriminate].
+  destruct (Model_ObjectWriter.run B A c s1 tr) as [[s2 rs']|] eqn:Hr; [|discriminate].
+  destruct (step_needs_shutdown _ _ _ _ HR Hs Hst He1) as [Hs1 Hc]. rewrite Hc. cbn [orb].
+  eapply IH; [eapply step_R; eassumption|exact Hs1|exact Hr|exact He2].
+Qed.
+
+(* ---- theorems about visibility and failure, for all traces and all faults ---- *)
+
+Theorem invisible_before_commit tr s rs :
+  run (init_state B A c) tr = Some (s, rs) -> existsb committed tr = false -> obj s = None.
+Proof. intros H Hc. apply (run_uncommitted _ _ _ _ H Hc). Qed.
+
+Theorem invisible_before_shutdown tr s rs :
+  run (init_state B A c) tr = Some (s, rs) -> existsb is_shutdown tr = false -> obj s = None.
+Proof.
+  intros H Hs. eapply invisible_before_commit; [exact H|].
+  eapply run_needs_shutdown; [apply R_init|reflexivity|exact H|exact Hs].
+Qed.
+
+Theorem fault_leaves_nothing tr1 e tr2 s rs :
+  run (init_state B A c) (tr1 ++ e :: tr2) = Some (s, rs) -> is_fault e = true ->
+  existsb committed tr1 = false -> obj s = None.
+Proof.
+  intros H Hf Hc. apply run_app in H as (s1 & rs1 & rs2 & H1 & H2 & _).
+  pose proof (run_uncommitted _ _ _ _ H1 Hc) as Ho1. pose proof (run_R _ _ _ _ R_init H1) as HR1.
+  cbn [Model_ObjectWriter.run] in H2. destruct (step s1 e) as [[s2 r]|] eqn:Hs; [|discriminate].
+  destruct (Model_ObjectWriter.run B A c s2 tr2) as [[s3 rs']|] eqn:Hr; [|discriminate]. inversion H2; subst.
+  pose proof (step_fault_doomed _ _ _ _ HR1 Hs Hf) as Hd.
+  assert (Hce : committed e = false) by (destruct e as [d| | |ok|k fr|ok|ok|ok|ok]; try discriminate; try reflexivity; destruct ok; try discriminate; reflexivity).
+  pose proof (step_obj _ _ _ _ Hs Hce) as Ho2.
+  destruct (run_doomed _ _ _ _ Hd Hr) as [_ Ho3]. cbn in Ho1. congruence.
+Qed.
+
+Lemma error_leaves_nothing_gen tr : forall s0 s rs, R s0 -> run s0 tr = Some (s, rs) -> In PError rs -> obj s = None.
+Proof.
+  induction tr as [|e tr IH]; intros s0 s rs HR H Hin; cbn [Model_ObjectWriter.run] in H.
+  - inversion H; subst. destruct Hin.
+  - destruct (step s0 e) as [[s1 r]|] eqn:Hs; [|discriminate].
+    destruct (Model_ObjectWriter.run B A c s1 tr) as [[s2 rs']|] eqn:Hr; [|discriminate]. inversion H; subst.
+    pose proof (step_R _ _ _ _ HR Hs) as HR1.
+    destruct Hin as [E|Hin]; [|eapply IH; eassumption].
+    subst r. pose proof (step_error_doomed _ _ _ Hs) as Hd.
+    destruct (run_doomed _ _ _ _ Hd Hr) as [_ Ho]. rewrite Ho.
+    destruct HR1 as [_ [Ho1|Hc] _]; [assumption|].
+    destruct (step_error_errored _ _ _ Hs) as [[E|[[p E]|[[d E]|E]]] _]; rewrite E in Hc; destruct Hc.
+Qed.
+
+Theorem error_leaves_nothing tr s rs :
+  run (init_state B A c) tr = Some (s, rs) -> In PError rs -> obj s = None.
+Proof. apply error_leaves_nothing_gen, R_init. Qed.
+
+(* ------------------------------------------------------------------------------------------ *)
+(* 6. The bytes: invariant of runs without connection-reset retries                           *)
+(* ------------------------------------------------------------------------------------------ *)
+
+(* one unfolding of poll_tasks at the fuel the polls use *)
+Lemma poll_tasks_unfold s : poll_tasks tasks_fuel c s =
+    match ph s with
+    | Started | Done | Closed => TOk _ s
+    | Creating GOk =>
+        poll_tasks 2 c (spawn (set_ph B (set_buf B s (bs_empty A) (new_capacity c 0) (cursor s)) (InProgress 1)) (buf s) 0)
+    | Creating GErr => TErr _ s
+    | Creating GPending => TOk _ s
+    | InProgress _ => let '(s1, ok) := drain c (ready s) s in if ok then TOk _ s1 else TErr _ s1
+    | PuttingSingle _ GOk | Completing GOk => poll_tasks 2 c (set_ph B s Done)
+    | PuttingSingle _ GErr | Completing GErr => TErr _ s
+    | PuttingSingle _ GPending | Completing GPending => TOk _ s
+    end.
+Proof. reflexivity. Qed.
+
+Lemma poll_tasks_S_inprog f s p : ph s = InProgress p ->
+  poll_tasks (S f) c s = let '(s1, ok) := drain c (ready s) s in if ok then TOk _ s1 else TErr _ s1.
+Proof. intro H. cbn [Model_ObjectWriter.poll_tasks]. rewrite H. reflexivity. Qed.
+
+Lemma poll_tasks_S_done f s : ph s = Done -> poll_tasks (S f) c s = TOk _ s.
+Proof. intro H. cbn [Model_ObjectWriter.poll_tasks]. rewrite H. reflexivity. Qed.
+
+Lemma poll_tasks_no_fuel s : poll_tasks tasks_fuel c s <> TFuel _.
+Proof.
+  rewrite poll_tasks_unfold.
+  destruct (ph s) as [|g|p|d g|g| |]; try discriminate.
+  - destruct g; try discriminate. rewrite (poll_tasks_S_inprog _ _ 1) by reflexivity.
+    match goal with |- context [Model_ObjectWriter.drain B c ?q ?x] => destruct (Model_ObjectWriter.drain B c q x) as [s1 ok] end.
+    destruct ok; discriminate.
+  - destruct (drain c (ready s) s) as [s1 ok]. destruct ok; discriminate.
+  - destruct g; try discriminate; try (rewrite poll_tasks_S_done by reflexivity; discriminate).
+  - destruct g; try discriminate; try (rewrite poll_tasks_S_done by reflexivity; discriminate).
+Qed.
+
+Section Bytes.
+Hypothesis L : bstr_laws A.
+Hypothesis Hpar : 0 < c_maxpar c.
+
+Fixpoint bconcat (l : list B) : B :=
+  match l with [] => bs_empty A | d :: l' => bs_app A d (bconcat l') end.
+
+Lemma bconcat_snoc l d : bconcat (l ++ [d]) = bs_app A (bconcat l) d.
+Proof.
+  induction l as [|x l IH]; cbn [app bconcat].
+  - rewrite (law_app_empty_l A L), (law_app_empty_r A L). reflexivity.
+  - rewrite IH, (law_app_assoc A L). reflexivity.
+Qed.
+
+Lemma assemble_nofail cl : forall i, assemble_from B A i cl [] = bconcat cl.
+Proof. induction cl as [|d cl IH]; intro i; cbn; [reflexivity|]. rewrite IH. reflexivity. Qed.
+
+Definition all_ok (q : list (task B * fres)) : Prop := Forall (fun x => snd x = ROk) q.
+
+Record Good (s : state) (acc : B) : Prop := {
+  G_pois : poisoned s = false;
+  G_failed : failed s = [];
+  G_ready : all_ok (ready s);
+  G_cursor : cursor s = bs_len A acc;
+  G_shut : shut_phase (ph s) -> shut s = true;
+  G_phase : match ph s with
+            | Started | Creating _ => calls s = [] /\ buf s = acc
+            | InProgress _ => bs_app A (bconcat (calls s)) (buf s) = acc
+            | PuttingSingle d g => d = acc /\ (g = GOk -> obj s = Some acc)
+            | Completing g => bconcat (calls s) = acc /\ (g = GOk -> obj s = Some acc)
+            | Done => obj s = Some acc
+            | Closed => False
+            end
+}.
+
+Lemma Good_init : Good (init_state B A c) (bs_empty A).
+Proof.
+  split; cbn; auto; try (intros []); try (rewrite (law_len_empty A L); reflexivity). constructor.
+Qed.
+
+Lemma drain_good q : forall s, all_ok q ->
+  drain c q s = (set_tasks B s (running s) [] (calls s) (failed s), true).
+Proof.
+  induction q as [|[t r] q IH]; intros s H; cbn [Model_ObjectWriter.drain]; [reflexivity|].
+  inversion H as [|x y Hx Hy]; subst. cbn in Hx; subst r. apply IH; assumption.
+Qed.
+
+Lemma poll_tasks_good s acc : Good s acc ->
+  match poll_tasks tasks_fuel c s with TOk _ s' => Good s' acc | _ => True end.
+Proof.
+  intros [G1 G2 G3 G4 G6 G5]. rewrite poll_tasks_unfold.
+  destruct (ph s) as [|g|p|d g|g| |] eqn:Hp; try (split; try rewrite Hp; assumption).
+  - destruct g; try exact I; try (split; try rewrite Hp; assumption).
+    rewrite (poll_tasks_S_inprog _ _ 1) by reflexivity. rewrite drain_good by exact G3.
+    split; unf; try assumption; try apply Forall_nil; try (intros []).
+    destruct G5 as [Hc Hb]. rewrite Hc. cbn [app bconcat].
+    rewrite !(law_app_empty_r A L). assumption.
+  - rewrite drain_good by assumption. split; unf; try assumption; try apply Forall_nil; rewrite Hp; assumption.
+  - destruct g; try exact I; try (split; try rewrite Hp; assumption).
+    rewrite poll_tasks_S_done by reflexivity.
+    split; unf; try assumption; try (intros _; apply G6; exact I). apply G5; reflexivity.
+  - destruct g; try exact I; try (split; try rewrite Hp; assumption).
+    rewrite poll_tasks_S_done by reflexivity.
+    split; unf; try assumption; try (intros _; apply G6; exact I). apply G5; reflexivity.
+Qed.
+
+(* what a poll_write call that was answered Ready(k) took from the caller's buffer *)
+Definition upd (acc : B) (e : event B) (r : pollres) : B :=
+  match e, r with
+  | EvWrite d, PReady k => bs_app A acc (bs_take A k d)
+  | _, _ => acc
+  end.
+
+Lemma take_zero d : bs_take A 0 d = bs_empty A.
+Proof. apply (law_len_zero A L). rewrite (law_len_take A L). lia. Qed.
+
+Lemma Good_cut s acc p : Good s acc -> ph s = InProgress p -> forall q cp,
+  Good (spawn (set_ph B (set_buf B s (bs_empty A) cp (cursor s)) (InProgress q)) (buf s) p) acc.
+Proof.
+  intros [G1 G2 G3 G4 G6 G5] Hp q cp. rewrite Hp in G5. split; unf; try assumption; [intros []|].
+  rewrite bconcat_snoc, (law_app_empty_r A L). assumption.
+Qed.
+
+Lemma Good_flush s acc p : Good s acc -> ph s = InProgress p -> forall cp,
+  Good (spawn (set_buf B s (bs_empty A) cp (cursor s)) (buf s) p) acc.
+Proof.
+  intros [G1 G2 G3 G4 G6 G5] Hp cp. split; unf; try assumption. rewrite Hp in *.
+  rewrite bconcat_snoc, (law_app_empty_r A L). assumption.
+Qed.
+
+Lemma poll_write_good s d acc s' r : Good s acc -> shut s = false -> poll_write B A c s d = (s', r) ->
+  Good s' (upd acc (EvWrite d) r) \/ doomed s'.
+Proof.
+  intros HG Hsh H. unfold poll_write in H.
+  pose proof (poll_tasks_good s acc HG) as H1. pose proof (poll_tasks_no_fuel s) as F1.
+  pose proof (poll_tasks_frame tasks_fuel s) as W1.
+  destruct (poll_tasks tasks_fuel c s) as [s1|s1|] eqn:E1; [| |congruence].
+  2:{ inversion H; subst. right. apply errored_doomed, errored_intro. eapply poll_tasks_err; eassumption. }
+  destruct W1 as (_&_&_&Hsh1). rewrite Hsh in Hsh1.
+  set (k0 := N.min (cap s1 - bs_len A (buf s1)) (bs_len A d)) in *.
+  set (acc2 := bs_app A acc (bs_take A k0 d)).
+  set (s2 := set_buf B s1 (bs_app A (buf s1) (bs_take A k0 d)) (cap s1) (cursor s1 + k0)) in *.
+  assert (H2 : Good s2 acc2).
+  { destruct H1 as [G1 G2 G3 G4 G6 G5]. subst s2 acc2. split; unf; try assumption.
+    - rewrite G4, (law_len_app A L), (law_len_take A L). subst k0. lia.
+    - destruct (ph s1) as [|g|p|dd g|g| |].
+      + destruct G5 as [Hc Hb]; split; [assumption|rewrite Hb; reflexivity].
+      + destruct G5 as [Hc Hb]; split; [assumption|rewrite Hb; reflexivity].
+      + rewrite <- (law_app_assoc A L), G5; reflexivity.
+      + rewrite G6 in Hsh1 by exact I; discriminate.
+      + rewrite G6 in Hsh1 by exact I; discriminate.
+      + rewrite G6 in Hsh1 by exact I; discriminate.
+      + contradiction. }
+  match type of H with context [match ?r with Ok s3 => _ | _ => _ end] => set (r3 := r) in * end.
+  assert (H3 : match r3 with Ok s3 => Good s3 acc2 | _ => exists p, ph s2 = InProgress p end).
+  { subst r3. destruct (cap s2 =? bs_len A (buf s2)); [|exact H2].
+    destruct (ph s2) as [|g|p|dd g|g| |] eqn:Hp; try exact H2.
+    - destruct H2 as [G1 G2 G3 G4 G6 G5]. rewrite Hp in *. split; unf; try assumption; try (intros []).
+    - destruct (nfut B s2 <? c_maxpar c); [|exact H2].
+      destruct (p + 1 <? 65536); [|exists p; reflexivity].
+      apply Good_cut; assumption. }
+  destruct r3 as [s3| |].
+  - pose proof (poll_tasks_good s3 acc2 H3) as H4. pose proof (poll_tasks_no_fuel s3) as F4.
+    destruct (poll_tasks tasks_fuel c s3) as [s4|s4|] eqn:E4; [| |congruence].
+    + inversion H; subst s' r. left. destruct (k0 =? 0) eqn:Hk; cbn [upd]; [|exact H4].
+      apply N.eqb_eq in Hk. subst acc2. rewrite Hk, take_zero, (law_app_empty_r A L) in H4. exact H4.
+    + inversion H; subst. right. apply errored_doomed, errored_intro. eapply poll_tasks_err; eassumption.
+  - inversion H; subst. right. destruct H3 as [p Hp]. unfold doomed; unf. rewrite Hp. left; reflexivity.
+  - inversion H; subst. right. destruct H3 as [p Hp]. unfold doomed; unf. rewrite Hp. left; reflexivity.
+Qed.
+
+Lemma poll_flush_good s acc s' r : Good s acc -> poll_flush B A c s = (s', r) -> Good s' acc \/ doomed s'.
+Proof.
+  intros HG H. unfold poll_flush in H.
+  pose proof (poll_tasks_good s acc HG) as H1. pose proof (poll_tasks_no_fuel s) as F1.
+  destruct (poll_tasks tasks_fuel c s) as [s1|s1|] eqn:E1; [| |congruence].
+  - left. destruct (ph s1); try destruct (nfut B s1 =? 0); inversion H; subst; exact H1.
+  - inversion H; subst. right. apply errored_doomed, errored_intro. eapply poll_tasks_err; eassumption.
+Qed.
+
+Lemma shutdown_loop_good fuel acc : forall s s' r, Good s acc -> shut s = true ->
+  shutdown_loop fuel c s = (s', r) -> Good s' acc \/ doomed s'.
+Proof.
+  induction fuel as [|f IH]; intros s s' r HG Hsh H; cbn [Model_ObjectWriter.shutdown_loop] in H.
+  { inversion H; subst; left; assumption. }
+  pose proof (poll_tasks_good s acc HG) as H1. pose proof (poll_tasks_no_fuel s) as F1.
+  pose proof (poll_tasks_frame tasks_fuel s) as W1.
+  destruct (poll_tasks tasks_fuel c s) as [s1|s1|] eqn:E1; [| |congruence].
+  2:{ inversion H; subst. right. apply errored_doomed, errored_intro. eapply poll_tasks_err; eassumption. }
+  destruct W1 as (_&_&_&Hsh1). rewrite Hsh in Hsh1.
+  destruct (ph s1) as [|g|p|dd g|g| |] eqn:Hp; try (inversion H; subst; left; exact H1).
+  - refine (IH _ _ _ _ _ H); [|unf; assumption]. destruct H1 as [G1 G2 G3 G4 G6 G5]. rewrite Hp in *.
+    split; unf; try assumption; [intros _; assumption|]. destruct G5 as [Hc Hb]. split; [assumption|discriminate].
+  - destruct (negb (bs_len A (buf s1) =? 0) && (nfut B s1 <? c_maxpar c)) eqn:Hfl.
+    + refine (IH _ _ _ _ _ H); [|unf; assumption]. apply Good_flush; assumption.
+    + destruct (nfut B s1 =? 0) eqn:Hn; [|inversion H; subst; left; exact H1].
+      refine (IH _ _ _ _ _ H); [|unf; assumption]. destruct H1 as [G1 G2 G3 G4 G6 G5]. rewrite Hp in *.
+      split; unf; try assumption; [intros _; assumption|]. split; [|discriminate].
+      apply N.eqb_eq in Hn. rewrite Hn in Hfl. apply andb_false_iff in Hfl as [Hfl|Hfl].
+      * apply negb_false_iff, N.eqb_eq in Hfl. apply (law_len_zero A L) in Hfl. rewrite Hfl, (law_app_empty_r A L) in G5. assumption.
+      * apply N.ltb_ge in Hfl. lia.
+Qed.
+
+Lemma step_good s e s' r acc : R s -> Good s acc -> step s e = Some (s', r) -> is_reset e = false ->
+  Good s' (upd acc e r) \/ doomed s'.
+Proof.
+  intros HR HG H Hre. destruct e as [d| | |ok|k fr|ok|ok|ok|ok]; cbn [Model_ObjectWriter.step] in H.
+  - destruct (poisoned s); [discriminate|]. destruct (shut s) eqn:Hs; [discriminate|]. cbn [orb] in H.
+    destruct (ph s); inversion H; eapply poll_write_good; eassumption.
+  - destruct (poisoned s || shut s); [discriminate|].
+    destruct (ph s); inversion H; cbn [upd]; eapply poll_flush_good; eassumption.
+  - destruct (poisoned s); [discriminate|].
+    assert (HG' : Good (set_shut B s) acc) by (destruct HG; split; unf; auto).
+    destruct (ph s); inversion H; cbn [upd]; eapply shutdown_loop_good; try eassumption; reflexivity.
+  - destruct (ph s) as [|g|p|dd g|g| |] eqn:Hp; try discriminate. destruct g; try discriminate. inversion H; subst.
+    left. cbn [upd]. destruct HG as [G1 G2 G3 G4 G6 G5]. rewrite Hp in *. split; unf; try assumption; try (intros []).
+  - destruct fr; [|right; apply (step_fault_doomed s (EvFinish k RErrOther) s' r HR H); reflexivity|discriminate].
+    destruct (take_task B k (running s)) as [[t rest]|]; [|discriminate]. inversion H; subst.
+    left. cbn [upd]. destruct HG as [G1 G2 G3 G4 G6 G5]. split; unf; try assumption.
+    apply Forall_app; split; [assumption|constructor; [reflexivity|constructor]].
+  - destruct ok; [|right; apply (step_fault_doomed s (EvPut false) s' r HR H); reflexivity].
+    destruct (ph s) as [|g|p|dd g|g| |] eqn:Hp; try discriminate. destruct g; try discriminate. inversion H; subst.
+    left. cbn [upd]. destruct HG as [G1 G2 G3 G4 G6 G5]. rewrite Hp in *. split; unf; try assumption.
+    destruct G5 as [Hd _]. split; [assumption|intros _; rewrite Hd; reflexivity].
+  - destruct ok; [|right; apply (step_fault_doomed s (EvComplete false) s' r HR H); reflexivity].
+    destruct (ph s) as [|g|p|dd g|g| |] eqn:Hp; try discriminate. destruct g; try discriminate. inversion H; subst.
+    left. cbn [upd]. destruct HG as [G1 G2 G3 G4 G6 G5]. rewrite Hp in *. split; unf; try assumption.
+    destruct G5 as [Hd _]. split; [assumption|intros _]. unfold assemble. rewrite G2, assemble_nofail, Hd. reflexivity.
+  - right; apply (step_fault_doomed s (EvAbort ok) s' r HR H); reflexivity.
+  - right; apply (step_fault_doomed s (EvDrop ok) s' r HR H); reflexivity.
+Qed.
+
+(* the bytes the writer reported as written, in order *)
+Fixpoint accepted (acc : B) (tr : list (event B)) (rs : list pollres) : B :=
+  match tr, rs with
+  | e :: tr', r :: rs' => accepted (upd acc e r) tr' rs'
+  | _, _ => acc
+  end.
+
+Lemma run_good tr : forall s acc s' rs, R s -> Good s acc \/ doomed s -> run s tr = Some (s', rs) ->
+  existsb is_reset tr = false -> Good s' (accepted acc tr rs) \/ doomed s'.
+Proof.
+  induction tr as [|e tr IH]; intros s acc s' rs HR HJ H Hre; cbn [Model_ObjectWriter.run existsb] in *.
+  - inversion H; subst. exact HJ.
+  - apply orb_false_iff in Hre as [Hre1 Hre2].
+    destruct (step s e) as [[s1 r]|] eqn:Hs; [|discriminate].
+    destruct (Model_ObjectWriter.run B A c s1 tr) as [[s2 rs']|] eqn:Hr; [|discriminate]. inversion H; subst.
+    cbn [accepted]. eapply IH; [eapply step_R; eassumption| |exact Hr|exact Hre2].
+    destruct HJ as [HG|Hd]; [eapply step_good; eassumption|].
+    right. eapply doomed_step; eassumption.
+Qed.
+
+Theorem bytes_exact tr s rs :
+  run (init_state B A c) tr = Some (s, rs) -> existsb is_reset tr = false -> ph s = Done ->
+  obj s = Some (accepted (bs_empty A) tr rs) /\ cursor s = bs_len A (accepted (bs_empty A) tr rs).
+Proof.
+  intros H Hre Hd.
+  destruct (run_good tr _ _ _ _ R_init (or_introl Good_init) H Hre) as [HG|HD].
+  - destruct HG as [G1 G2 G3 G4 G6 G5]. rewrite Hd in G5. split; assumption.
+  - unfold doomed in HD. rewrite Hd in HD. destruct HD.
+Qed.
+
+End Bytes.
 
 End Proofs.
